@@ -164,7 +164,8 @@ def calc_intensity(detector, scatterer, medium_index=None, illum_wavelen=None,
                        illum_wavelen=illum_wavelen,
                        illum_polarization=illum_polarization, theory=theory)
     intensity = (np.abs(field.sel(vector=['x', 'y']))**2).sum(dim=vector)
-    return finalize(detector, intensity)
+    # field carries the detector's metadata updated with the optics passed in
+    return finalize(field, intensity)
 
 
 def calc_holo(detector, scatterer, medium_index=None, illum_wavelen=None,
